@@ -18,9 +18,14 @@
         enum  Validation.Values (e<i>)
         tags  [name, type]: values of struct:field:name / struct:field:type (0 = absent)
         x     number of meta keys / validation fields outside this vocabulary (always 0)
+        al    0, or the number of an alias class: the attributes of one class are ONE expr.AttributeExpr held
+              by several objects (what AttributeExpr.Merge - Extend(Base), at Finalize - leaves behind: the
+              extending object holds the very attribute objects of the base).  Canonical numbering: classes with
+              at least two reachable members, in the order of their first member.
 
    Only user types are shared or recursive (the DSL cannot share anonymous
-   types), and every cycle passes through an object (the DSL resolves types by
+   types; an attribute held by two objects - al - has a leaf or a user type as
+   its type), and every cycle passes through an object (the DSL resolves types by
    name only inside an attribute list); both are what Dup's memo (keyed by
    user type id) and Hash's memo (keyed by object) rely on.
 
@@ -50,7 +55,8 @@ CONSTANTS Deviations,   \* named departures of the code from the design
           Modes,        \* subset of {"hash", "dup"}
           Decos,        \* hash mode: 0 = no tags, 1 = every object/user attribute carries both tags;
                         \* dup mode: every attribute has that many values under meta "doc:k" and that many required names
-          Shapes,       \* "any": every graph; "shared": only graphs in which a non-recursive user type is referenced from two places
+          Shapes,       \* "any": every graph; "shared": only graphs in which a non-recursive user type is referenced from two places;
+                        \* "aliased": only graphs in which two objects hold the same attribute (after one Extend step)
           Ops,          \* hash mode: "all" transformations, or only those of "sharing" (SharingOps)
           MaxSteps,     \* length of mutation scripts
           Script        \* "free": any steps; "paired": any first step, then the same append-like change at the same
@@ -63,7 +69,9 @@ AllDeviations == {"hash.union_order_dependent", "hash.meta_iteration_order", "ha
                   "dup.meta_backing_array_shared", "dup.required_backing_array_shared",
                   \* hypothetical (vacuity guard of the sharing transformations): an object met again, in whatever way,
                   \* hashes as "_o_" - the second reference to a user type looks like a type without attributes
-                  "hash.memo_hit_is_empty_object"}
+                  "hash.memo_hit_is_empty_object",
+                  \* hypothetical (vacuity guard of the attributes held by two objects)
+                  "dup.attribute_memo_records_original"}
 ASSUME Deviations \subseteq AllDeviations
 
 Range(s) == {s[i] : i \in 1..Len(s)}
@@ -76,7 +84,7 @@ Rank(s) == RankMap[s]
 P(p) == [p |-> p, n |-> 0]
 R(i) == [p |-> "-", n |-> i]
 NoTags == [name |-> 0, type |-> 0]
-A(nm, r) == [name |-> nm, ref |-> r, desc |-> 0, req |-> <<>>, val |-> 0, enum |-> <<>>, meta |-> <<>>, tags |-> NoTags, x |-> 0]
+A(nm, r) == [name |-> nm, ref |-> r, desc |-> 0, req |-> <<>>, val |-> 0, enum |-> <<>>, meta |-> <<>>, tags |-> NoTags, x |-> 0, al |-> 0]
 Nd(k, nm, as) == [kind |-> k, name |-> nm, attrs |-> as]
 IsUser(nd) == nd.kind \in {"user", "result"}
 IsNamed(nd) == nd.kind \in {"object", "union"}
@@ -122,6 +130,18 @@ OnCycle(g, i) == i \in ReachAllK(g, NodeRefs(g.nodes[i]), Len(g.nodes))
 \* and is referenced from two places
 RefsTo(g, u) == UNION {{<<i, k>> : k \in {k \in 1..Len(g.nodes[i].attrs) : g.nodes[i].attrs[k].ref.n = u}} : i \in 1..Len(g.nodes)}
 SharedUsers(g) == {u \in 1..Len(g.nodes) : IsUser(g.nodes[u]) /\ ~OnCycle(g, u) /\ Cardinality(RefsTo(g, u)) >= 2}
+
+\* alias classes (attribute objects held by several objects): canonical numbering over a node sequence
+AllLocs(nodes) == UNION {{<<i, k>> : k \in 1..Len(nodes[i].attrs)} : i \in 1..Len(nodes)}
+LocKey(l) == 100 * l[1] + l[2]
+NormAl(nodes) ==
+  IF \A l \in AllLocs(nodes) : nodes[l[1]].attrs[l[2]].al = 0 THEN nodes ELSE
+  LET members(c) == {l \in AllLocs(nodes) : nodes[l[1]].attrs[l[2]].al = c}
+      live == {c \in {nodes[l[1]].attrs[l[2]].al : l \in AllLocs(nodes)} \ {0} : Cardinality(members(c)) >= 2}
+      first(c) == CHOOSE x \in {LocKey(l) : l \in members(c)} : \A l \in members(c) : x <= LocKey(l)
+      num(c) == IF c \notin live THEN 0 ELSE 1 + Cardinality({c2 \in live : first(c2) < first(c)})
+  IN [i \in 1..Len(nodes) |-> [nodes[i] EXCEPT !.attrs = [k \in 1..Len(@) |-> [@[k] EXCEPT !.al = num(@)]]]]
+HasAlias(g) == \E l \in AllLocs(g.nodes) : g.nodes[l[1]].attrs[l[2]].al # 0
 
 Graphs == {g \in {[root |-> t.ref, nodes |-> t.nodes] : t \in {t \in Gen(1, N, {}) : t.ref.n # 0}} : EveryCycleHasAnObject(g)}
 
@@ -237,7 +257,8 @@ Ident(n) == [i \in 1..n |-> i]
 HasName(nd, s) == \E k \in 1..Len(nd.attrs) : nd.attrs[k].name = s
 TagTargets == {[name |-> 0, type |-> 0], [name |-> 1, type |-> 0], [name |-> 0, type |-> 1],
                [name |-> 1, type |-> 1], [name |-> 2, type |-> 1]}
-IrrelevantOps == {"copy", "copyatt", "perm", "rev", "desc", "val", "req", "meta", "deco"}
+\* (unalias: every holder of an aliased attribute gets an attribute of its own with the same content)
+IrrelevantOps == {"copy", "copyatt", "perm", "rev", "desc", "val", "req", "meta", "deco", "unalias"}
 StructuralOps == {"ren", "add", "del", "prim", "flip"}
 \* one reference to a user type is moved to another user type; everything else stays as it is:
 \*   unshare  a user type referenced from two places (and not recursive): this reference gets a type of its own,
@@ -258,19 +279,23 @@ Transforms(g, fine) ==
       nd(i) == g.nodes[i]
       Locs == UNION {{<<i, k>> : k \in 1..Len(nd(i).attrs)} : i \in NN}
       tgt(l) == nd(l[1]).attrs[l[2]].ref.n
-      ULocs == {l \in Locs : tgt(l) # 0 /\ IsUser(nd(tgt(l)))}       \* the references to user types
+      \* what changes the attribute itself is done to attributes with one holder only (for an aliased attribute the
+      \* change would show in every holder: another transformation); its slot can be renamed or removed
+      Own == {l \in Locs : nd(l[1]).attrs[l[2]].al = 0}
+      ULocs == {l \in Own : tgt(l) # 0 /\ IsUser(nd(tgt(l)))}       \* the references to user types
   IN {T0("copy", 0, 0), T0("copyatt", 0, 0)}
+     \cup (IF HasAlias(g) THEN {T0("unalias", 0, 0)} ELSE {})
      \cup UNION {{[T0("perm", i, 0) EXCEPT !.perm = p] : p \in Perms(Len(nd(i).attrs)) \ {Ident(Len(nd(i).attrs))}}
                    : i \in {i \in NN : IsNamed(nd(i)) /\ Len(nd(i).attrs) >= 2}}
      \cup (IF \E i \in NN : IsNamed(nd(i)) /\ Len(nd(i).attrs) >= 2 THEN {T0("rev", 0, 0)} ELSE {})
-     \cup {T0(op, l[1], l[2]) : op \in (IF fine THEN {"desc", "val", "req", "meta"} ELSE {"deco"}), l \in Locs}
+     \cup {T0(op, l[1], l[2]) : op \in (IF fine THEN {"desc", "val", "req", "meta"} ELSE {"deco"}), l \in Own}
      \cup {T0("uname", i, 0) : i \in {i \in NN : IsUser(nd(i))}}
      \cup UNION {{[T0("tag", l[1], l[2]) EXCEPT !.tags = tg] : tg \in TagTargets \ {nd(l[1]).attrs[l[2]].tags}}
-                   : l \in {l \in Locs : nd(l[1]).kind = "object"}}
+                   : l \in {l \in Own : nd(l[1]).kind = "object"}}
      \cup {T0("ren", l[1], l[2]) : l \in {l \in Locs : IsNamed(nd(l[1])) /\ ~HasName(nd(l[1]), "z")}}
      \cup {T0("add", i, 0) : i \in {i \in NN : IsNamed(nd(i)) /\ ~HasName(nd(i), "z")}}
      \cup {T0("del", l[1], l[2]) : l \in {l \in Locs : nd(l[1]).kind = "object" \/ (nd(l[1]).kind = "union" /\ Len(nd(l[1]).attrs) >= 2)}}
-     \cup {T0("prim", l[1], l[2]) : l \in {l \in Locs : nd(l[1]).attrs[l[2]].ref.n = 0 /\ nd(l[1]).attrs[l[2]].ref.p # "Empty"}}
+     \cup {T0("prim", l[1], l[2]) : l \in {l \in Own : nd(l[1]).attrs[l[2]].ref.n = 0 /\ nd(l[1]).attrs[l[2]].ref.p # "Empty"}}
      \cup {T0("flip", i, 0) : i \in {i \in NN : nd(i).kind \in {"array", "map"}}}
      \cup {T0("unshare", l[1], l[2]) : l \in {l \in ULocs : tgt(l) \in SharedUsers(g)}}
      \cup {T0("hollow", l[1], l[2]) : l \in ULocs}
@@ -304,6 +329,7 @@ ApplyT(g, t) ==
       id == Len(g.nodes) + 1
   IN
   CASE t.op \in {"copy", "copyatt"} -> g
+    [] t.op = "unalias" -> [g EXCEPT !.nodes = [i \in 1..Len(@) |-> [@[i] EXCEPT !.attrs = [k \in 1..Len(@) |-> [@[k] EXCEPT !.al = 0]]]]]
     [] t.op = "unshare" ->
          LET c == CopyAnon(Append(g.nodes, [g.nodes[u] EXCEPT !.name = "Z", !.attrs = <<>>]), g.nodes[u].attrs[1].ref)
          IN [g EXCEPT !.nodes = [c.nodes EXCEPT ![id].attrs = <<[g.nodes[u].attrs[1] EXCEPT !.ref = c.ref]>>,
@@ -499,7 +525,12 @@ LoadNodes(nodes, i, k, outN, bufs) ==
            r == SNew(m.bufs, [j \in 1..Len(a.req) |-> ReqCode(a.req[j])], CapFor(Len(a.req), 0))
            e == SNew(r.bufs, a.enum, Len(a.enum))
            na == [a EXCEPT !.meta = m.h, !.req = r.h, !.enum = e.h]
-       IN LoadNodes(nodes, i, k + 1, [outN EXCEPT ![i].attrs[k] = na], e.bufs)
+           \* a member of an alias class loaded before: the very same attribute (its slices included)
+           prev == {l \in AllLocs(nodes) : LocKey(l) < LocKey(<<i, k>>) /\ nodes[l[1]].attrs[l[2]].al = a.al}
+       IN IF a.al # 0 /\ prev # {}
+          THEN LET l == CHOOSE l \in prev : TRUE
+               IN LoadNodes(nodes, i, k + 1, [outN EXCEPT ![i].attrs[k] = [outN[l[1]].attrs[l[2]] EXCEPT !.name = a.name]], bufs)
+          ELSE LoadNodes(nodes, i, k + 1, [outN EXCEPT ![i].attrs[k] = na], e.bufs)
 Load(g) == LoadNodes(g.nodes, 1, 1, g.nodes, <<>>)
 
 CanonAttr(hp, a, ref) ==
@@ -510,15 +541,15 @@ Canon(hp, root) ==
       pos(id) == CHOOSE i \in 1..Len(ord) : ord[i] = id
       ren(r) == IF r.n = 0 THEN r ELSE R(pos(r.n))
   IN [root |-> ren(root),
-      nodes |-> [i \in 1..Len(ord) |->
-                   [hp.nodes[ord[i]] EXCEPT !.attrs = [k \in 1..Len(@) |-> CanonAttr(hp, @[k], ren(@[k].ref))]]]]
+      nodes |-> NormAl([i \in 1..Len(ord) |->
+                   [hp.nodes[ord[i]] EXCEPT !.attrs = [k \in 1..Len(@) |-> CanonAttr(hp, @[k], ren(@[k].ref))]]])]
 \* the same renumbering for a canonical-form graph after a transformation (drops unreachable nodes)
 CanonG(g) ==
   LET ord == Ord(g.nodes, g.root, <<>>)
       pos(id) == CHOOSE i \in 1..Len(ord) : ord[i] = id
       ren(r) == IF r.n = 0 THEN r ELSE R(pos(r.n))
   IN [root |-> ren(g.root),
-      nodes |-> [i \in 1..Len(ord) |-> [g.nodes[ord[i]] EXCEPT !.attrs = [k \in 1..Len(@) |-> [@[k] EXCEPT !.ref = ren(@)]]]]]
+      nodes |-> NormAl([i \in 1..Len(ord) |-> [g.nodes[ord[i]] EXCEPT !.attrs = [k \in 1..Len(@) |-> [@[k] EXCEPT !.ref = ren(@)]]]])]
 
 \* how expr.Dup treats the three slices (DupAttribute -> MetaExpr.Dup, ValidationExpr.Dup)
 MetaHow(devs) == IF "dup.meta_values_shared" \in devs THEN "alias"
@@ -526,7 +557,11 @@ MetaHow(devs) == IF "dup.meta_values_shared" \in devs THEN "alias"
 ReqHow(devs)  == IF "dup.required_backing_array_shared" \in devs THEN "capped" ELSE "fresh"
 EnumHow(devs) == IF "dup.enum_values_shared" \in devs THEN "alias" ELSE "fresh"
 
-\* expr.Dup: fresh nodes for everything reachable, memo keyed by user type
+\* expr.Dup: fresh nodes for everything reachable, memo keyed by user type.  Every DupAttribute call makes an
+\* attribute of its own: an attribute held by two objects of the original (alias class) becomes two attributes
+\* of the copy (al = 0).  dupper.ats is there to hand back what already is a copy; under the (hypothetical)
+\* deviation dup.attribute_memo_records_original it records the attributes copied *from*, and the second holder
+\* of an aliased attribute gets the original attribute itself - type, slices, alias class and all.
 RECURSIVE DupR(_, _, _), DupAs(_, _, _, _, _)
 DupR(st, r, devs) ==
   IF r.n = 0 THEN [st |-> st, ref |-> r]
@@ -544,10 +579,12 @@ DupAs(st, as, i, out, devs) ==
            m == SCopy(d.st.bufs, a.meta, MetaHow(devs))
            r == SCopy(m.bufs, a.req, ReqHow(devs))
            e == SCopy(r.bufs, a.enum, EnumHow(devs))
-           na == [a EXCEPT !.ref = d.ref, !.meta = m.h, !.req = r.h, !.enum = e.h]
-       IN DupAs([d.st EXCEPT !.bufs = e.bufs], as, i + 1, Append(out, na), devs)
+           na == [a EXCEPT !.ref = d.ref, !.meta = m.h, !.req = r.h, !.enum = e.h, !.al = 0]
+       IN IF "dup.attribute_memo_records_original" \in devs /\ a.al # 0 /\ a.al \in st.ats
+          THEN DupAs(st, as, i + 1, Append(out, a), devs)
+          ELSE DupAs([d.st EXCEPT !.bufs = e.bufs, !.ats = IF a.al # 0 THEN @ \cup {a.al} ELSE @], as, i + 1, Append(out, na), devs)
 DupHeap(hp, root, devs) ==
-  LET d == DupR([nodes |-> hp.nodes, bufs |-> hp.bufs, uts |-> <<>>], root, devs)
+  LET d == DupR([nodes |-> hp.nodes, bufs |-> hp.bufs, uts |-> <<>>, ats |-> {}], root, devs)
   IN [hp |-> [nodes |-> d.st.nodes, bufs |-> d.st.bufs], ref |-> d.ref]
 
 MutOps == {"set", "del", "ren", "meta", "tag", "req", "vmerge", "setattr", "rename", "type", "desc",
@@ -578,7 +615,7 @@ StepsOf(hp, root, side) ==
      \cup {Step(side, "enumset", l[1], l[2]) : l \in {l \in Locs : at(l).enum.l >= 1}}
      \cup {Step(side, "slot", l[1], l[2]) : l \in {l \in Locs : IsNamed(nd(l[1]))}}
 
-ApplyStep(hp, root, s) ==
+ApplyStep1(hp, root, s) ==
   LET id == Ord(hp.nodes, root, <<>>)[s.node]
       a == hp.nodes[id].attrs[s.idx]
       \* Validation.AddRequired(name): append unless present
@@ -606,6 +643,17 @@ ApplyStep(hp, root, s) ==
        [] s.op = "rename" -> [hp EXCEPT !.nodes[id].name = "Z"]
        [] s.op = "type" -> [hp EXCEPT !.nodes[id].attrs[s.idx].ref = P("int")]
        [] s.op = "desc" -> [hp EXCEPT !.nodes[id].attrs[s.idx].desc = 9]
+\* the steps that write into the attribute (the others put another attribute into the holder's slot, or take the
+\* slot away): every holder of that attribute sees the change - wherever in the heap it is
+InPlaceOps == {"meta", "metaset", "metarev", "tag", "tagset", "req", "reqset", "enumset", "vmerge", "type", "desc"}
+ApplyStep(hp, root, s) ==
+  IF s.op \notin InPlaceOps THEN ApplyStep1(hp, root, s) ELSE
+  LET id == Ord(hp.nodes, root, <<>>)[s.node] IN
+  IF hp.nodes[id].attrs[s.idx].al = 0 THEN ApplyStep1(hp, root, s) ELSE
+  Bind(ApplyStep1(hp, root, s), LAMBDA h1 :
+    LET na == h1.nodes[id].attrs[s.idx]
+        held(x) == IF x.al = na.al THEN [na EXCEPT !.name = x.name] ELSE x
+    IN [h1 EXCEPT !.nodes = [i \in 1..Len(@) |-> [@[i] EXCEPT !.attrs = [k \in 1..Len(@) |-> held(@[k])]]]])
 
 ---------------------------------------------------------------------------
 (* State machine: one case per behaviour.
@@ -644,9 +692,29 @@ Build ==
                 /\ g' = [Fill(g, hole, R(id)) EXCEPT !.nodes = Append(@, NewNode(kind, id, m))]
                 /\ stack' = HolesOf(kind, id, m) \o Tail(stack)
   /\ UNCHANGED <<mode, deco, pc, hp, ro, rc, script, unch, obs>>
+\* AttributeExpr.Merge (Extend(Base), when a design is finalized): object o2 gets the very attribute objects of
+\* object o1 - Object.Set: in the slot of its attribute of that name, else at the end.  Done once, to a finished
+\* graph, and only with attributes whose type is a leaf or a user type (an anonymous type below a shared
+\* attribute would be a shared anonymous type: whether a copy has to keep that sharing is not said anywhere).
+ObjSet(as, a) == IF \E j \in 1..Len(as) : as[j].name = a.name
+                 THEN [as EXCEPT ![CHOOSE j \in 1..Len(as) : as[j].name = a.name] = a] ELSE Append(as, a)
+RECURSIVE ObjSetAll(_, _, _)
+ObjSetAll(as, src, k) == IF k > Len(src) THEN as ELSE ObjSetAll(ObjSet(as, src[k]), src, k + 1)
+ExtendG(gg, o2, o1) ==
+  LET src == [k \in 1..Len(gg.nodes[o1].attrs) |-> [gg.nodes[o1].attrs[k] EXCEPT !.al = k]]
+  IN CanonG([gg EXCEPT !.nodes[o1].attrs = src, !.nodes[o2].attrs = ObjSetAll(@, src, 1)])
+Mergeable(gg, o1) == /\ gg.nodes[o1].kind = "object" /\ Len(gg.nodes[o1].attrs) >= 1
+                     /\ \A k \in 1..Len(gg.nodes[o1].attrs) :
+                          LET r == gg.nodes[o1].attrs[k].ref IN IF r.n = 0 THEN TRUE ELSE IsUser(gg.nodes[r.n])
+Extend ==
+  /\ pc = "build" /\ stack = <<>> /\ Shapes = "aliased" /\ ~HasAlias(g)
+  /\ \E o1, o2 \in 1..Len(g.nodes) : /\ o1 # o2 /\ g.nodes[o2].kind = "object" /\ Mergeable(g, o1)
+                                      /\ g' = ExtendG(g, o2, o1) /\ HasAlias(g')
+  /\ UNCHANGED <<mode, deco, pc, stack, hp, ro, rc, script, unch, obs>>
 Built ==
   /\ pc = "build" /\ stack = <<>> /\ EveryCycleHasAnObject(g)
   /\ Shapes = "shared" => SharedUsers(g) # {}
+  /\ Shapes = "aliased" => HasAlias(g)
   /\ mode' \in Modes /\ deco' \in Decos /\ pc' = "start"
   /\ UNCHANGED <<g, stack, hp, ro, rc, script, unch, obs>>
 
@@ -686,7 +754,7 @@ Mutate == /\ pc = "mut" /\ Len(script) < MaxSteps
                /\ unch' = Append(unch, Canon(hp', RootOf(Other(side))) = Canon(hp, RootOf(Other(side))))
           /\ UNCHANGED <<mode, g, deco, pc, stack, ro, rc, obs>>
 
-Next == Build \/ Built \/ DoHash \/ Load_ \/ DoDup \/ Mutate
+Next == Build \/ Extend \/ Built \/ DoHash \/ Load_ \/ DoDup \/ Mutate
 Spec == Init /\ [][Next]_vars
 
 ---------------------------------------------------------------------------
@@ -704,7 +772,9 @@ VisitBound == (K + 2) ^ (N + 1)
 Terminates == HashDone => \A i \in 1..Len(obs) : obs[i].c <= VisitBound
 
 Reach(root) == Range(Ord(hp.nodes, root, <<>>))
-CopyEqual == pc = "mut" /\ script = <<>> => Canon(hp, rc) = Canon(hp, ro)
+\* (the structure: which attributes are one object is left aside - NoAl -, see DupAs)
+NoAl(gg) == [gg EXCEPT !.nodes = [i \in 1..Len(@) |-> [@[i] EXCEPT !.attrs = [k \in 1..Len(@) |-> [@[k] EXCEPT !.al = 0]]]]]
+CopyEqual == pc = "mut" /\ script = <<>> => NoAl(Canon(hp, rc)) = NoAl(Canon(hp, ro))
 CopyDisjoint == pc = "mut" => Reach(ro) \cap Reach(rc) = {}
 CopyIndependent == \A i \in 1..Len(unch) : unch[i]
 DupTerminates == pc = "mut" => Len(hp.nodes) <= 2 * N + MaxSteps
